@@ -16,7 +16,7 @@ def strip_comments(src):
 def functions(src):
     """top-level function definitions: (ret, name, params_text, body)"""
     out = []
-    pat = re.compile(r"^([A-Za-z_][\w \*]*?)\s*\n?([A-Za-z_][\w:]*)\s*\(([^)]*)\)\s*\n\{", re.M)
+    pat = re.compile(r"^([A-Za-z_][\w \*]*?)\s*\n?([A-Za-z_][\w:]*)\s*\(((?:[^()]|\((?:[^()]|\([^()]*\))*\))*)\)\s*\n\{", re.M)
     for m in pat.finditer(src):
         # find matching brace
         i = m.end()
@@ -52,6 +52,10 @@ def params(ptxt):
     res = []
     for p in split_args(ptxt):
         p = " ".join(p.split())
+        fp = re.match(r"[\w\s\*]+\(\s*\*\s*(\w+)\s*\)\s*\(.*\)$", p)
+        if fp:
+            res.append(("fnptr", fp.group(1)))
+            continue
         m = re.match(r"(.*?[\*\s])(\w+)$", p)
         if not m:
             res.append((p, ""))
@@ -84,22 +88,23 @@ def extract_c(src):
         if "::" in name:
             continue
         ps = params(ptxt)
-        if not ps or ps[0] != ("int", "id"):
-            if name in ("CreateIPhreeqc", "GetVersionString"):
-                continue
+        if (not ps or ps[0] != ("int", "id")) and name not in ("CreateIPhreeqc", "GetVersionString"):
             raise RuntimeError(f"gen_api: C wrapper {name} has an unrecognised parameter list: {ptxt}")
         calls = []
         for m in re.finditer(r"IPhreeqcPtr->(\w+)\s*\(", body):
             calls.append((m.group(1), [re.sub(r"\s+", "", a) for a in split_args(call_args(body, m.end()))]))
-        lookups = re.findall(r"IPhreeqcLib::(\w+)\s*\(\s*(\w+)\s*\)", body)
+        lookups = re.findall(r"IPhreeqcLib::(\w+)\s*\(\s*(\w*)\s*\)", body)
+        lookups += [("static " + m, a) for m, a in re.findall(r"IPhreeqc::(\w+)\s*\(\s*(\w*)\s*\)", body)]
         rets = re.findall(r"return\s+([^;]+);", body)
         bad = rets[-1].strip() if rets else ""
         statics = dict(re.findall(r"static const char (\w+)\[\]\s*=\s*\"((?:[^\"\\]|\\.)*)\"", body))
         bad_text = statics.get(bad, "")
         bad_text = bad_text.encode().decode("unicode_escape") if bad_text else ""
         trans = re.findall(r"case\s+(VR_\w+)\s*:\s*return\s+(IPQ_\w+)", body)
-        ws.append(dict(name=name, ret=ret, params=ps, calls=calls, lookups=lookups, bad=bad, bad_text=bad_text,
-                       bad_is_static=bad in statics, trans=trans))
+        w = dict(name=name, ret=ret, params=ps, calls=calls, lookups=lookups, bad=bad, bad_text=bad_text,
+                 bad_is_static=bad in statics, trans=trans)
+        if w not in ws:                 # the two #ifdef variants of SetBasicFortranCallback have the same shape
+            ws.append(w)
     return ws
 
 
@@ -116,10 +121,46 @@ def extract_f(src):
         pads = []
         for m in re.finditer(r"padfstring\s*\(", body):
             pads.append([re.sub(r"\s+", "", a) for a in split_args(call_args(body, m.end()))])
-        ws.append(dict(name=name, ret=ret, params=ps, calls=calls, pads=pads,
-                       rows_minus_heading=bool(re.search(r"rows\s*-=\s*1", body)),
-                       adjcol=bool(re.search(r"adjcol\s*=\s*\*col\s*-\s*1", body))))
+        w = dict(name=name, ret=ret, params=ps, calls=calls, pads=pads,
+                 rows_minus_heading=bool(re.search(r"rows\s*-=\s*1", body)),
+                 rows_guard=" ".join(re.findall(r"if\s*\(([^)]*)\)\s*\{?\s*rows\s*-=\s*1", body)),
+                 adjcol=bool(re.search(r"adjcol\s*=\s*\*col\s*-\s*1", body)))
+        if w not in ws:
+            ws.append(w)
     return ws
+
+
+def header_decls(src):
+    """IPQ_DLL_EXPORT declarations of a header: (name, return type, number of parameters), comments stripped"""
+    out = []
+    for m in re.finditer(r"IPQ_DLL_EXPORT\s+([\w\s\*]+?)\s*\b(\w+)\s*\(((?:[^()]|\([^()]*\))*)\)\s*;", strip_comments(src)):
+        ret = " ".join(m.group(1).split()).replace(" *", "*")
+        ps = [] if m.group(3).strip() in ("", "void") else split_args(m.group(3))
+        d = (m.group(2), ret, len(ps))
+        if d not in out:
+            out.append(d)
+    return sorted(out)
+
+
+def doc_facts(src):
+    """what the doc comment in front of each declaration of IPhreeqc.h says about results (mechanical reading):
+    the @retval names, "a negative value indicates an error", the one-based note for Fortran, zero-based index parameter,
+    "empty string if n is out of range" """
+    out = []
+    for m in re.finditer(r"/\*\*(.*?)\*/\s*IPQ_DLL_EXPORT\s+[^;(]*?\b(\w+)\s*\(", src, re.S):
+        doc, name = m.group(1), m.group(2)
+        # a doc block may contain an embedded declaration in an #ifdef example; the regex takes the nearest /** ... */
+        doc = doc[doc.rfind("/**") + 3:] if "/**" in doc else doc
+        retvals = sorted(set(re.findall(r"@retval\s+(IPQ_\w+)", doc)))
+        out.append((name, retvals,
+                    bool(re.search(r"negative value indicates an error", doc)),
+                    bool(re.search(r"one-based for the Fortran interface", doc, re.I)),
+                    bool(re.search(r"@param\s+n\s+The zero-based index", doc)),
+                    bool(re.search(r"empty string if n is out of range", doc, re.I))))
+    names = [o[0] for o in out]
+    if len(set(names)) != len(names):
+        raise RuntimeError("gen_api: a function of IPhreeqc.h has two doc blocks: " + str(sorted(n for n in names if names.count(n) > 1)))
+    return sorted(out)
 
 
 def extract_f90(src):
@@ -129,7 +170,7 @@ def extract_f90(src):
                          src, re.I):
         nargs = len([a for a in m.group(2).replace("&", "").split(",") if a.strip()])
         out.append((m.group(3), nargs))
-    return sorted(x for x in set(out) if x[0] != "SetBasicFortranCallbackF")
+    return sorted(set(out))
 
 
 def generate(ctx=None):
@@ -141,9 +182,13 @@ def generate(ctx=None):
     binds = extract_f90(f90)
     # fail closed: every function the files define must have been recognised, except the callback setters
     # (function-pointer parameters), which are outside the table
-    skip = {"SetBasicCallback", "SetBasicFortranCallback", "SetBasicFortranCallbackF"}
-    allc = set(re.findall(r"^(\w+)\s*\(int id", src_c, re.M)) - skip
-    allf = set(re.findall(r"^(\w+F)\s*\(", src_f, re.M)) - skip
+    hdr = (vlib.REPO / "src" / "IPhreeqc.h").read_text(errors="replace")
+    hdr_f = (vlib.REPO / "src" / "IPhreeqc_interface_F.h").read_text(errors="replace")
+    hdecls, fdecls, facts = header_decls(hdr), header_decls(hdr_f), doc_facts(hdr)
+    if len(hdecls) < 60 or len(fdecls) < 60 or len(facts) < 60:
+        raise RuntimeError(f"gen_api: header declarations not recognised ({len(hdecls)} C, {len(fdecls)} F, {len(facts)} doc blocks)")
+    allc = set(re.findall(r"^(\w+)\s*\((?:int id|void)", src_c, re.M))
+    allf = set(re.findall(r"^(\w+F)\s*\(", src_f, re.M))
     missing = (allc - {w["name"] for w in cw}) | (allf - {w["name"] for w in fw})
     if missing or len(cw) < 60 or len(fw) < 60:
         raise RuntimeError(f"gen_api: wrappers not recognised: {sorted(missing)} ({len(cw)} C, {len(fw)} F)")
@@ -154,7 +199,10 @@ def generate(ctx=None):
          "  badIsStatic : Bool", "  badText : String", "  trans : List (String × String)", "deriving DecidableEq, Repr", "",
          "structure FW where", "  name : String", "  ret : String", "  params : List (String × String)",
          "  calls : List (String × List String)", "  pads : List (List String)", "  rowsMinusHeading : Bool",
-         "  adjcol : Bool", "deriving DecidableEq, Repr", ""]
+         "  rowsGuard : String", "  adjcol : Bool", "deriving DecidableEq, Repr", "",
+         "/-- mechanical reading of one doc block of IPhreeqc.h -/",
+         "structure DocFact where", "  name : String", "  retvals : List String", "  negOnError : Bool", "  oneBasedF : Bool",
+         "  zeroBasedN : Bool", "  emptyOutOfRange : Bool", "deriving DecidableEq, Repr", ""]
 
     def pairs(ps):
         return lean_list(f"({lean_str(a)}, {lean_str(b)})" for a, b in ps)
@@ -172,16 +220,34 @@ def generate(ctx=None):
     L.append(",\n".join(
         f"  ⟨{lean_str(w['name'])}, {lean_str(w['ret'])}, {pairs(w['params'])}, {calls(w['calls'])}, "
         f"{lean_list(lean_list(lean_str(a) for a in p) for p in w['pads'])}, "
-        f"{'true' if w['rows_minus_heading'] else 'false'}, {'true' if w['adjcol'] else 'false'}⟩" for w in fw))
+        f"{'true' if w['rows_minus_heading'] else 'false'}, {lean_str(w['rows_guard'])}, {'true' if w['adjcol'] else 'false'}⟩" for w in fw))
     L.append("]\n")
     L.append("/-- `bind(C, NAME=…)` targets declared in IPhreeqc_interface.F90 with their argument counts -/")
     L.append("def f90Binds : List (String × Nat) := " + lean_list(f"({lean_str(n)}, {k})" for n, k in binds))
+    b = lambda x: "true" if x else "false"
+    L.append("\n/-- `IPQ_DLL_EXPORT` declarations of IPhreeqc.h: (name, return type, number of parameters) -/")
+    L.append("def hDecls : List (String × String × Nat) := " + lean_list(f"({lean_str(n)}, {lean_str(r)}, {k})" for n, r, k in hdecls))
+    L.append("\n/-- `IPQ_DLL_EXPORT` declarations of IPhreeqc_interface_F.h -/")
+    L.append("def fDecls : List (String × String × Nat) := " + lean_list(f"({lean_str(n)}, {lean_str(r)}, {k})" for n, r, k in fdecls))
+    L.append("\ndef docFacts : List DocFact := [")
+    L.append(",\n".join(f"  ⟨{lean_str(n)}, {lean_list(lean_str(x) for x in rv)}, {b(neg)}, {b(ob)}, {b(zb)}, {b(eo)}⟩" for n, rv, neg, ob, zb, eo in facts))
+    L.append("]")
+    # the three helper functions behind Create / Destroy / lookup, as whitespace-normalised source text
+    helpers = {}
+    for ret, name, ptxt, body in functions(src_c):
+        if name.startswith("IPhreeqcLib::"):
+            helpers[name.split("::")[1]] = " ".join(body.split())
+    if sorted(helpers) != ["CreateIPhreeqc", "DestroyIPhreeqc", "GetInstance"]:
+        raise RuntimeError(f"gen_api: helper functions of IPhreeqcLib not recognised: {sorted(helpers)}")
+    L.append("\n/-- bodies of IPhreeqcLib::CreateIPhreeqc / DestroyIPhreeqc / GetInstance (whitespace normalised) -/")
+    L.append("def helperBodies : List (String × String) := " + lean_list(f"({lean_str(k)}, {lean_str(v)})" for k, v in sorted(helpers.items())))
     L.append("\nend PhreeqcVerif.Gen.Api")
     out = vlib.LEAN / "PhreeqcVerif" / "Gen" / "ApiTable.lean"
     text = "\n".join(L) + "\n"
     if not out.exists() or out.read_text() != text:
         out.write_text(text)
-    return {"c_wrappers": len(cw), "f_wrappers": len(fw), "f90_binds": len(binds)}
+    return {"c_wrappers": len(cw), "f_wrappers": len(fw), "f90_binds": len(binds), "header_decls": len(hdecls),
+            "f_header_decls": len(fdecls), "doc_blocks": len(facts)}
 
 
 if __name__ == "__main__":
